@@ -14,6 +14,11 @@ R-CANONKEY     the bucket is looked up and created under one key, the internal p
                (get_cached_pretty_representation(/*internal=*/true)).
 R-CANONRESTORE the comparison-mode switches flipped around each comparison (on-the-fly canonicalisation on,
                decl-only-class-equals-definition off) are restored on every path out of the function.
+R-CTCANCEL     an ir::equals overload that first delegates to the overload of a base class on the same operands (which may
+               tentatively propagate a canonical type to the right operand) and then goes on comparing more attributes
+               cancels that propagation on every path before it reports a verdict through return_comparison_result:
+               otherwise a difference found in the remaining attributes leaves the right operand with the left one's
+               canonical type.
 R-CTPROP       ir::return_comparison_result (every instantiation): a comparison that failed never propagates a
                canonical type and always cancels the tentative ones; a comparison that succeeded never cancels;
                the function returns the verdict it was given.
@@ -31,7 +36,7 @@ def run(ctx):
     ctx.clause = ("the canonicalisation driver gives a type the canonical type of a candidate only after a structural "
                   "comparison said equal, registers an unmatched type under the key it was looked up with, restores the "
                   "comparison-mode switches, and never keeps a propagated canonical type after a failed comparison")
-    ctx.rules = ["R-CANONEQ", "R-CANONNEW", "R-CANONKEY", "R-CANONRESTORE", "R-CTPROP"]
+    ctx.rules = ["R-CANONEQ", "R-CANONNEW", "R-CANONKEY", "R-CANONRESTORE", "R-CTPROP", "R-CTCANCEL"]
     P = ctx.program(UNITS)
     fs = [f for f in P.fn("abigail::ir::type_base::get_canonical_type_for") if not f.dep and f.cfg() is not None]
     if len(fs) != 1:
@@ -41,6 +46,7 @@ def run(ctx):
     check_driver(ctx, P, f)
     check_restore(ctx, f)
     check_ctprop(ctx, P)
+    check_ctcancel(ctx, P)
     ctx.assume("structural equality itself (the ir::equals overloads, cycle handling and the marking of types that depend on "
                "recursive types) is runtime behaviour: the project's own --debug-tc / --debug-abidiff builds are dynamic "
                "checks of it and are not replaced by this clause")
@@ -228,3 +234,44 @@ def check_ctprop(ctx, P):
                        "canonical type it is not structurally equal to" % (hit("maybe_propagate_canonical_type"), hit("confirm_ct_propagation"),
                                                                           cancels, sorted(map(str, rets))))
     ctx.floor("R-CTPROP", "(instantiation, verdict) worlds", n, 4)
+
+
+
+def check_ctcancel(ctx, P):
+    from rules.idref_rule import _on_all_paths_before
+    n = 0
+    for f in sorted(P.fn("abigail::ir::equals"), key=lambda x: x.sig):
+        if f.dep or f.cfg() is None or len(f.r["params"]) < 2:
+            continue
+        l, r = f.r["params"][0], f.r["params"][1]
+
+        def on_operands(call):
+            a = call_args(call)
+            return len(a) >= 2 and any(y["k"] == "DeclRefExpr" and y.get("d") == l for y in walk(a[0])) and \
+                any(y["k"] == "DeclRefExpr" and y.get("d") == r for y in walk(a[1]))
+        # delegation that is not itself the returned value
+        deleg = []
+        for x in f.nodes():
+            if x["k"] == "CallExpr" and (f.decl(x) or {}).get("n") == "equals" and (f.decl(x) or {}).get("u") != f.u and on_operands(x):
+                p = f.parent(x)
+                while p is not None and p["k"] in ("ImplicitCastExpr", "ParenExpr", "ExprWithCleanups"):
+                    p = f.parent(p)
+                if p is None or p["k"] != "ReturnStmt":
+                    deleg.append(x)
+        rets = [x for x in f.nodes() if x["k"] == "CallExpr" and (f.decl(x) or {}).get("n") == "return_comparison_result"]
+        if not deleg or not rets:
+            continue
+        ctx.analysed(f)
+
+        def is_cancel(e):
+            return e["k"] == "CallExpr" and (f.decl(e) or {}).get("n") == "maybe_cancel_propagated_canonical_type" and call_args(e) and \
+                any(y["k"] == "DeclRefExpr" and y.get("d") == r for y in walk(call_args(e)[0]))
+        bad = [x for x in rets if not _on_all_paths_before(f, x, is_cancel)]
+        n += 1
+        kind = f.sig[f.sig.index("(") + 1:].split(",")[0].replace("const ", "").replace("abigail::ir::", "").replace(" &", "")
+        ctx.ob("R-CTCANCEL", "equals(%s): the propagation made by the delegated comparison is cancelled before every verdict" % kind,
+               not bad, f.loc(bad[0]) if bad else f.loc(deleg[0]),
+               "maybe_cancel_propagated_canonical_type(r) dominates the %d verdicts" % len(rets) if not bad else
+               "a verdict is reachable without maybe_cancel_propagated_canonical_type(r): when the remaining attributes differ the "
+               "right operand keeps the canonical type of the left one, and the two types compare equal from then on")
+    ctx.floor("R-CTCANCEL", "equals overloads that delegate and continue", n, 1)
